@@ -275,6 +275,7 @@ func newEngine(prog *ssa.Program, models map[string]*ssa.Function) *Engine {
 		switch p.Pkg.Path() {
 		case "time":
 			e.timerType = p.Type("Timer").Type()
+			e.tickerType = p.Type("Ticker").Type()
 			e.timeType = p.Type("Time").Type()
 		case "errors":
 			e.errType = types.NewPointer(p.Type("errorString").Type())
